@@ -6,7 +6,7 @@ from .. import common as C
 from .. import concrun as K
 
 LEVEL = "proof"
-N = {"quick": (300, 120), "thorough": (20000, 4000)}
+N = {"quick": (4000, 800), "thorough": (20000, 4000)}
 
 
 def run_cases(chk, binr, seq, conc, pf_ok, pf):
